@@ -194,7 +194,8 @@ def r19_1(ctx):
                     r = ex[1] if ex and ex[0] == "return" else None
                     if not (isinstance(r, ListV) and len(r.items) == (3 if "absence" in lmap.values() else 2)):
                         ctx.violation(con0 + ":return-shape", f.loc(), f"{cls} encoder returns {r!r}")
-        rets = [n for n in ast.walk(f.node) if isinstance(n, ast.Return)]
+        nested = {id(n) for d in ast.walk(f.node) if isinstance(d, (ast.FunctionDef, ast.Lambda)) and d is not f.node for n in ast.walk(d)}
+        rets = [n for n in ast.walk(f.node) if isinstance(n, ast.Return) and id(n) not in nested]   # (the encoder's own returns, not a nested helper's)
         order = [list_kind(x.id, f) for x in rets[-1].value.elts] if rets and isinstance(rets[-1].value, ast.Tuple) and all(isinstance(x, ast.Name) for x in rets[-1].value.elts) else None
         if order != ["ready", "working", "absence"][: (3 if "absence" in lmap.values() else 2)]:
             ctx.violation(con0 + ":return-order", f.loc(), f"{cls} encoder returns its lists in order {order}")
